@@ -240,8 +240,13 @@ pub trait Fld: Clone + PartialEq + std::fmt::Debug {
     }
 }
 
-#[derive(Clone, PartialEq, Eq, Hash, Debug, PartialOrd, Ord)]
+#[derive(Clone, PartialEq, Eq, Hash, PartialOrd, Ord)]
 pub struct Fq(pub N);
+impl std::fmt::Debug for Fq {
+    fn fmt(&self, f: &mut std::fmt::Formatter<'_>) -> std::fmt::Result {
+        write!(f, "0x{:x}", self.0)
+    }
+}
 impl Fq {
     pub fn new(x: &N) -> Fq {
         Fq(x % q())
@@ -281,10 +286,15 @@ impl Fld for Fq {
 }
 
 /// a + b*u with u^2 = -2
-#[derive(Clone, PartialEq, Eq, Hash, Debug, PartialOrd, Ord)]
+#[derive(Clone, PartialEq, Eq, Hash, PartialOrd, Ord)]
 pub struct F2 {
     pub a: N,
     pub b: N,
+}
+impl std::fmt::Debug for F2 {
+    fn fmt(&self, f: &mut std::fmt::Formatter<'_>) -> std::fmt::Result {
+        write!(f, "(re=0x{:x}, im=0x{:x})", self.a, self.b)
+    }
 }
 impl F2 {
     pub fn new(a: &N, b: &N) -> F2 {
